@@ -11,5 +11,5 @@ Lemma tie_no_global_writes : no_global_writes gen_accesses = true.
 Proof. vm_compute. reflexivity. Qed.
 
 (** the inventory is not empty (the check is not vacuous) *)
-Lemma tie_globals_nonempty : (10 <= length gen_accesses)%nat /\ (10 <= length gen_globals)%nat.
+Lemma tie_globals_nonempty : (10 <= List.length gen_accesses)%nat /\ (10 <= List.length gen_globals)%nat.
 Proof. vm_compute. split; repeat constructor. Qed.
